@@ -75,7 +75,7 @@ def run(ctx):
             if repo == "none" and state != "clean":
                 continue
             for kind in ("content", "move"):
-                for inv in ("rel-root", "abs", "rel-sub", "two-abs-other-repo"):
+                for inv in ("rel-root", "abs", "rel-sub", "two-abs-other-repo", "abs-symlink"):
                     for v in variants:
                         scen.append((repo, state, kind, inv, v))
     with core.Scratch("verif-c14") as tmp:
@@ -84,6 +84,7 @@ def run(ctx):
         def one(args):
             k, (repo, state, kind, inv, v) = args
             w, target_rel, repo_root = build(tmp, k, repo, state, kind, v)
+            view = w
             tdir = os.path.dirname(target_rel)
             if inv == "rel-root":
                 cwd, arg = w, "."
@@ -91,6 +92,13 @@ def run(ctx):
                 cwd, arg = tmp, w
             elif inv == "rel-sub":
                 cwd, arg = os.path.join(w, tdir), "."
+            elif inv == "abs-symlink":
+                # the workspace (and its repository) reached through a symbolic link: both path sets of the gate must be
+                # in the same form, whichever it is
+                view = os.path.join(tmp, "l%d" % k)
+                os.symlink(w, view)
+                # (the arguments are directories BELOW the link: a walk does not follow a link given as its root)
+                cwd, arg = tmp, [os.path.join(view, "p"), os.path.join(view, "q")]
             else:
                 # several path arguments, started from inside ANOTHER (clean) git repository
                 cwd = os.path.join(tmp, "s%d" % k, "elsewhere")
@@ -104,12 +112,16 @@ def run(ctx):
             p = subprocess.run([regal, "fix"] + (arg if isinstance(arg, list) else [arg]), cwd=cwd, stdout=subprocess.PIPE, stderr=subprocess.STDOUT, text=True,
                                timeout=120, env=dict(os.environ, NO_COLOR="1"))
             after = snapshot(w)
-            return k, (repo, state, kind, inv, v), w, target_rel, repo_root, cwd, arg, p.returncode, p.stdout[-600:], before, after
+            return k, (repo, state, kind, inv, v), (w, view), target_rel, repo_root, cwd, arg, p.returncode, p.stdout[-600:], before, after
         with concurrent.futures.ThreadPoolExecutor(max_workers=12) as ex:
             results = list(ex.map(one, enumerate(scen)))
     mcases = []
-    for (k, sc, w, target_rel, repo_root, cwd, arg, rc, out, before, after) in results:
+    for (k, sc, (w0, w), target_rel, repo_root, cwd, arg, rc, out, before, after) in results:
         repo, state, kind, inv, v = sc
+        # w0 = where the workspace is, w = the name the command reached it by (differs for abs-symlink): the model sees the
+        # paths the command sees
+        if repo_root and w != w0:
+            repo_root = os.path.normpath(os.path.join(w, os.path.relpath(repo_root, w0)))
         dirty = state in ("modified", "staged", "untracked")
         tgt_abs = os.path.join(w, target_rel)
         # what the fixer wants to do (Env side: the fixes themselves): target fixed in place or moved to p/
